@@ -166,6 +166,14 @@ def gen(rng, n, tier):  # noqa: F811
     for i in range(n - len(out)):
         c = M.gen_met(rng, tier=tier, rollover=0.3)
         out.append(dict(kind='met-' + c['fmt'], content=c, write=False, read=True))
+    # older wind files: time record  hour, idate  WITHOUT the lstagger word (8 bytes), three or more steps
+    # (nx*ny = 2 is left out: the data records would be as long as the time record)
+    for i in range(max(2, n // 15)):
+        c = M.gen_met(rng, fmt='wind', tier=tier, rollover=0.3, min_steps=3)
+        while c['nx'] * c['ny'] == 2:
+            c = M.gen_met(rng, fmt='wind', tier=tier, rollover=0.3, min_steps=3)
+        c['lstagger'] = None
+        out.append(dict(kind='met-wind-nostagger', content=c, write=False, read=True))
     return out
 
 
